@@ -37,6 +37,7 @@ OUT_OF_CLAIM = ['more than 4 pre-state pairs or 2 argument pairs', 'values whose
 STUBS = []
 
 CLASSES = [OrderedMultiDict, None]
+DFLT = -9      # the default object passed to pop/popall/poplast/getlist; also stored as a value
 
 
 def _cls(i):
@@ -166,10 +167,13 @@ def eq_ok(o, L, cls):
     if not (o == same) or (o != same) or not (same == o):
         return 'eq_same_omd'
     if L:
-        other = cls(list(L[1:]) + [L[0]])
-        exp = peq(other.items(multi=True), L)
-        if (o == other) != exp or (o != other) == exp:
-            return 'eq_rotated_omd'
+        import itertools
+        for perm in itertools.permutations(range(len(L))):
+            PL = [L[i] for i in perm]
+            other = cls(PL)
+            exp = peq(PL, L)
+            if (o == other) != exp or (o != other) == exp or (other == o) != exp:
+                return 'eq_permuted_omd'
         shorter = cls(list(L[:-1]))
         if o == shorter or not (o != shorter):
             return 'eq_shorter_omd'
@@ -335,7 +339,7 @@ def apply_op(o, L, cls, name, kk, v, kk2, v2, kind, nv):
                 if not present:
                     return name + '_absent_no_keyerror', L
             else:
-                r = o.pop(kk, -9) if name == 'pop' else o.popall(kk, -9)
+                r = o.pop(kk, DFLT) if name == 'pop' else o.popall(kk, DFLT)
         except KeyError:
             if present or nv != 0:
                 return name + '_keyerror', L
@@ -346,19 +350,19 @@ def apply_op(o, L, cls, name, kk, v, kk2, v2, kind, nv):
                     return 'pop_return', L
             elif not veq(r, m_list(L, kk)):
                 return 'popall_return', L
-        elif not (r == -9):
+        elif not (r == DFLT):
             return name + '_default', L
         return None, [(a, b) for a, b in L if not (a == kk)]
     if name == 'poplast_key':
         present = m_has(L, kk)
         try:
-            r = o.poplast(kk) if nv == 0 else o.poplast(kk, -9)
+            r = o.poplast(kk) if nv == 0 else o.poplast(kk, DFLT)
         except KeyError:
             if present or nv != 0:
                 return 'poplast_keyerror', L
             return None, L
         if not present:
-            if nv == 0 or not (r == -9):
+            if nv == 0 or not (r == DFLT):
                 return 'poplast_default', L
             return None, L
         if not (r == m_last(L, kk)):
@@ -367,13 +371,13 @@ def apply_op(o, L, cls, name, kk, v, kk2, v2, kind, nv):
         return None, L[:idx] + L[idx + 1:]
     if name == 'poplast':
         try:
-            r = o.poplast() if nv == 0 else o.poplast(default=-9)
+            r = o.poplast() if nv == 0 else o.poplast(default=DFLT)
         except KeyError:
             if L or nv != 0:
                 return 'poplast_keyerror', L
             return None, L
         if not L:
-            if nv == 0 or not (r == -9):
+            if nv == 0 or not (r == DFLT):
                 return 'poplast_default', L
             return None, L
         if not (r == L[-1][1]):
@@ -515,11 +519,11 @@ def omd_step(ci: int, gen: int, n: int, a0: int, v0: int, a1: int, v1: int, a2: 
     # full read battery: every pair carries a unique concrete token as its value, the
     # key-equality pattern was decided above; the rest runs untraced on the real classes
     with notrace():
-        return _step_body(cls, name, n, gen, kind, nv, ks, [100, 101, 102, 103][:n], 200, 201, False)
+        return _step_body(cls, name, n, gen, kind, nv, ks, [None, DFLT, 102, 103][:n], 200, 201, False)
 
 
 def _step2_body(cls, name, name_b, n, kind, nv, kind_b, nv_b, ks, nids, nb):
-    vals = [100, 101, 102][:n]
+    vals = [None, DFLT, 102][:n]
     v, w, v3 = 200, 201, 202
     L = [(K(ks[i]), vals[i]) for i in range(n)]
     kk, kk2 = [K(x) for x in (ks[n:n + nids] + [90, 91])[:2]]
